@@ -7,7 +7,11 @@ built, then DemoStorage(base=..., changes=...), then demo.push(changes=...)).  A
     (loadBefore at every tid boundary, load, loadSerial, getTid, history at every size, iterator whole and
     from every start tid, undoLog, lastTransaction, len),
   * every storage below the top is compared with the snapshot taken when it was wrapped (file bytes /
-    records, transactions, last tid, "not in a transaction").
+    records, transactions, last tid, "not in a transaction", every file of its blob directory).
+Blob records: on flavours where every layer keeps blobs (a FileStorage with a blob directory below; one, or the
+demo storage's own changes - wrapped in a BlobStorage on first use - on top) the oids in BlobOids are blobs: every
+Store of them is a storeBlob with a file from temporaryDirectory(), and the value of every revision in the table is
+what loadBlob / openCommittedBlobFile of the top storage serve for (oid, serial) (newest from the changes, else base).
 Where TLC's `dev` says the transcription differs from the meaning (one database holding base \\o changes) and
 the real storage conforms to the transcription, the real code has the deviation: reported as `genuine`.
 
